@@ -36,6 +36,32 @@ theorem C07_setCol_keeps_coherence (t : Tbl) (h : Coherent t) (name : String) (v
     Coherent (setCol t name vals).1 :=
   setCol_coherent t h name vals
 
+/-- cell assignment by position, by name or by tuple — into the index column (cache dropped) or any other -/
+theorem C07_setCell_keeps_coherence (t : Tbl) (h : Coherent t) (col : String) (row : Row) (v : Cell) :
+    Coherent (setCell t col row v).1 :=
+  setCell_coherent t h col row v
+
+/-- column deletion (of a column other than the index column) -/
+theorem C07_delCol_keeps_coherence (t : Tbl) (h : Coherent t) (name : String) (hn : name ≠ t.index) :
+    Coherent (delCol t name).1 :=
+  delCol_coherent t h name hn
+
+/-- **all histories**: after any sequence of whole-column assignments, new columns, cell assignments, column
+    deletions and look-ups, the cache (if any) is the one a fresh pass over the current index column builds -/
+theorem C07_history_coherent (ops : List TOp) (t : Tbl) (h : Coherent t)
+    (hdel : ∀ n, TOp.delCol n ∈ ops → n ≠ t.index) : Coherent (ops.foldl applyTOp t) :=
+  history_coherent ops t h hdel
+
+/-- hence, after any such history, `rows.get_index((name, count, offset))` is the scan of the index column as it
+    is *now*: the count-th occurrence (negative counts from the last) plus the offset, `KeyError` otherwise -/
+theorem C07_lookup_after_history (ops : List TOp) (t : Tbl) (h : Coherent t)
+    (hdel : ∀ n, TOp.delCol n ∈ ops → n ≠ t.index) (name : String) (count : Int) (offset : Option Int) :
+    (getRowIndex (ops.foldl applyTOp t) (.tup name count offset)).2 =
+      match scanLookup (ops.foldl applyTOp t).indexCol name count (offset.getD 0) with
+      | some i => .ok i
+      | none => .error .keyError :=
+  getRowIndex_scan _ (history_coherent ops t h hdel) name count offset
+
 /-- a fresh table is coherent -/
 theorem C07_new_coherent (idx : String) (cols : List (String × List Cell)) :
     Coherent (⟨idx, cols.map (·.1), cols, none, "::", "<<", ">>"⟩ : Tbl) := Or.inl rfl
@@ -44,6 +70,10 @@ theorem C07_new_coherent (idx : String) (cols : List (String × List Cell)) :
 def exT0 : Tbl := ⟨"name", ["name"],
   [("name", [Cell.str "a", Cell.str "b", Cell.str "a", Cell.str "c", Cell.str "a"])], none, "::", "<<", ">>"⟩
 def exT : Tbl := (getCache exT0).1
+/-- a warm cache, then a cell of the index column renamed by name, then a look-up: the scan sees the new name -/
+def exOps : List TOp := [.getIndex (.name "a"), .setCell "name" (.name "b") (.str "a"), .getIndex (.tup "a" 1 none)]
+#guard ((exOps.foldl applyTOp exT0).indexCol == ["a", "a", "a", "c", "a"]) &&
+  (match (getRowIndex (exOps.foldl applyTOp exT0) (.tup "a" 1 none)).2 with | .ok i => i == 1 | _ => false)
 #guard exT.cache.isSome
 #guard scanLookup exT.indexCol "a" 1 0 == some 2 && scanLookup exT.indexCol "a" (-1) 0 == some 4 &&
     scanLookup exT.indexCol "a" 3 0 == none && scanLookup exT.indexCol "b" 0 1 == some 2
